@@ -726,7 +726,7 @@ def gen_factory_program(rng: Any) -> dict[str, Any]:
         else:
             cmds.append(["yield", rng.randint(1, 3)])
     return {"backend": rng.choice(["asyncio", "trio"]), "sched_seed": rng.randrange(1 << 30), "shuffle": rng.random() < 0.5, "nested": rng.random() < 0.5,
-            "handler": handler, "cmds": cmds, "spawn_after_close": rng.choice([None, "start_task_soon", "start_task"]),
+            "handler": handler, "bystander": rng.random() < 0.3, "cmds": cmds, "spawn_after_close": rng.choice([None, "start_task_soon", "start_task"]),
             # the factory is started in a context that holds no resource at all
             "handler_form": rng.choice(["function", "function", "falsy_object"]),
             "block_raises": (not will_crash) and rng.random() < 0.2,
@@ -976,6 +976,18 @@ class FactoryRun:
                 self.factory = await ctx.start_background_task_factory(exception_handler=handler)
             ctx.add_resource(ST0(), "after")
             ctx.add_resource_factory(lambda: ST0(), "after_factory", types=[ST0])  # (a factory added afterwards is not inherited either)
+            bystander_handle = None
+            if prog.get("bystander"):
+                # a second task factory of the same application with one task that only ever ends by being cancelled: a failure that
+                # takes the application down takes that task down too (and is not held up by it)
+                async def idle() -> None:
+                    try:
+                        await anyio.sleep_forever()
+                    finally:
+                        run.log("bystander-ended", "bystander")
+
+                bystander = await ctx.start_background_task_factory()
+                bystander_handle = await bystander.start_task(idle, "bystander")
             self.check_handles("factory started")
             for cmd in prog["cmds"]:
                 kind = cmd[0]
@@ -1022,6 +1034,9 @@ class FactoryRun:
                     for _ in range(cmd[1]):
                         await checkpoint()
                 self.check_handles(f"after {cmd[0]}")
+            if bystander_handle is not None:
+                bystander_handle.cancel()
+                await bystander_handle.wait_finished()
             self.log("block-end", "owner")
             if prog.get("block_raises"):
                 raise BlockFailed("the owner's block failed")  # an ordinary teardown follows: running tasks are awaited all the same
@@ -1291,6 +1306,11 @@ def check_factory(run: FactoryRun) -> tuple[list[dict[str, Any]], dict[str, int]
     stray_handler = [x for x in run.handler_calls if not any(contains_same(x, run.raised[t]) for t in run.raised)]
     if stray_handler:
         bad("factory-handler-count", f"the exception handler was called with {describe_exc(stray_handler[0])}, which no task raised (cancellations must not reach it)")
+    if prog.get("bystander"):
+        inc("applications_with_a_second_task_factory_whose_task_only_ends_by_cancellation")
+        if fatal and not any(e["kind"] == "bystander-ended" for e in ev) and any(e["kind"] == "root-left" for e in ev):
+            bad("factory-task-after-exit", "the idle task of the application's second task factory was still running after the root context had been left "
+                                           "by the failure")
     if prog.get("block_raises") and not fatal:
         inc("owner_blocks_ending_with_an_exception")
         if not any(type(x).__name__ == "BlockFailed" for x in _leaves(run.root_boundary)) or len(_leaves(run.root_boundary)) != 1:
